@@ -9,7 +9,7 @@ NA = [
  ("C11", "pure function of (document, update, array filters); its one clock read ($currentDate) is covered inside C01's model (DESIGN.md 9.11)"),
  ("C12", "pure function over pairs/triples of values; nothing for deterministic simulation to schedule or fault (DESIGN.md 9.12)"),
  ("C13", "pure function of (collection contents, query); no concurrency, time or I/O involved (DESIGN.md 9.13)"),
- ("C14", "pure function of (document, projection); the non-mutation clause for stored documents is covered by C03's snapshot monitor (DESIGN.md 9.14)"),
+ ("C14", "pure function of (document, projection); the non-mutation clause for stored documents is covered by C01's contents comparison after every call and C03's snapshot monitor (DESIGN.md 9.14)"),
  ("C17", "statement about sequential programs (call, mutate argument or result, observe): no schedule, clock, fault or restart in it (DESIGN.md 9.17)"),
  ("C20", "robustness over an input space with no schedule, clock or fault dimension; the engine-stays-usable clause is decided under C16 (DESIGN.md 9.20)"),
 ]
